@@ -389,9 +389,52 @@ theorem text_inj {l : List Route} (hnd : (l.map (·.text)).Nodup) {k k' : Nat} (
     exact h
   exact (List.getElem_inj hnd).mp h1
 
-/-- `diffRoutes`: every route command is accepted; the resulting routes as a set. -/
-theorem routes_run (al bl : List Route) (R : List String) (h : RoutesWF al bl R) :
-    ∃ R', rRun R (routePlan al bl).1 = some R' ∧ ∀ t, t ∈ R' ↔ (t ∈ R ∧ ¬ DelT al bl t) ∨ InsT al bl t := by
+/-- Shape of the first phase of `diffRoutes`: a target route is added, or a device route is replaced
+by a target route to the same destination in the same VRF (one joined command line). -/
+def PhaseAAct (al bl : List Route) (a : MA) : Prop :=
+  (∃ r ∈ bl, a = .route r.text) ∨ (∃ o ∈ al, ∃ r ∈ bl, a = .replRoute o.text r.text ∧ o.key = r.key)
+
+/-- Shape of the second phase: a device route that is not a target route is removed. -/
+def PhaseBAct (al bl : List Route) (a : MA) : Prop := ∃ o ∈ al, a = .noRoute o.text ∧ o.text ∉ bl.map (·.text)
+
+theorem insFold_shape (dels : List (Nat × Route)) (P : MA → Prop) (inss : List Route)
+    (s : List MA × List Nat × List (String × String)) (hs : ∀ a ∈ s.1, P a)
+    (hroute : ∀ r ∈ inss, P (.route r.text))
+    (hrepl : ∀ d ∈ dels, ∀ r ∈ inss, d.2.key = r.key → P (.replRoute d.2.text r.text)) :
+    ∀ a ∈ (inss.foldl (insStep dels) s).1, P a := by
+  induction inss generalizing s with
+  | nil => exact hs
+  | cons r inss ih =>
+    simp only [List.foldl_cons]
+    apply ih
+    · intro a ha
+      unfold insStep at ha
+      cases hc : (dels.filter fun d => d.2.key == r.key && !s.2.2.contains r.key).getLast? with
+      | none =>
+        rw [hc] at ha
+        rcases List.mem_append.mp ha with h1 | h1
+        · exact hs a h1
+        · simp only [List.mem_singleton] at h1
+          rw [h1]; exact hroute r (List.mem_cons_self ..)
+      | some d =>
+        rw [hc] at ha
+        rcases List.mem_append.mp ha with h1 | h1
+        · exact hs a h1
+        · simp only [List.mem_singleton] at h1
+          have hdm := List.mem_of_getLast? hc
+          obtain ⟨hdd, hdk⟩ := List.mem_filter.mp hdm
+          simp only [Bool.and_eq_true, beq_iff_eq] at hdk
+          rw [h1]; exact hrepl d hdd r (List.mem_cons_self ..) hdk.1
+    · intro r' hr'; exact hroute r' (List.mem_cons_of_mem _ hr')
+    · intro d hd r' hr'; exact hrepl d hd r' (List.mem_cons_of_mem _ hr')
+
+/-- `diffRoutes`: every route command is accepted; the plan is a first phase of additions and
+same-destination replacements after which every target route is on the device, followed by
+removals of routes that are not target routes; the resulting routes as a set. -/
+theorem routes_run_full (al bl : List Route) (R : List String) (h : RoutesWF al bl R) :
+    ∃ R' pa pb Ra, (routePlan al bl).1 = pa ++ pb ∧ rRun R pa = some Ra ∧ rRun Ra pb = some R' ∧
+      (∀ a ∈ pa, PhaseAAct al bl a) ∧ (∀ a ∈ pb, PhaseBAct al bl a) ∧ (∀ r ∈ bl, r.text ∈ Ra) ∧
+      ∀ t, t ∈ R' ↔ (t ∈ R ∧ ¬ DelT al bl t) ∨ InsT al bl t := by
   have hled0 : Led R R [] [] := fun t => by simp
   unfold routePlan
   by_cases hal : al.isEmpty = true
@@ -404,7 +447,15 @@ theorem routes_run (al bl : List Route) (R : List String) (h : RoutesWF al bl R)
         obtain ⟨r, hr, rfl⟩ := List.mem_map.mp hb
         have := h.stray r hr hc
         simp at this) R [] [] hled0 (by simp)
-    refine ⟨R', by rw [List.map_map] at h1; exact h1, ?_⟩
+    refine ⟨R', bl.map fun r => MA.route r.text, [], R', by simp, by rw [List.map_map] at h1; exact h1, rfl, ?_, by simp, ?_, ?_⟩
+    · intro a ha
+      obtain ⟨r, hr, rfl⟩ := List.mem_map.mp ha
+      exact Or.inl ⟨r, hr, rfl⟩
+    · intro r hr
+      rw [l1 r.text]
+      right
+      simp only [List.append_nil, List.mem_reverse]
+      exact List.mem_map_of_mem hr
     intro t
     rw [l1 t]
     simp only [List.not_mem_nil, not_false_eq_true, and_true, List.append_nil, List.mem_reverse, List.mem_map, DelT, InsT,
@@ -520,7 +571,57 @@ theorem routes_run (al bl : List Route) (R : List String) (h : RoutesWF al bl R)
         · rintro ⟨d, hd, h2, h1 | ⟨h1, _⟩⟩
           · exact ⟨d, hd, h1, h2⟩
           · cases h1)
-    refine ⟨R', hrun', ?_⟩
+    have hrunB : rRun Rc1 (dels.filterMap (delAct (bl.map (·.vrf)) s.2.1)) = some R' := by
+      rw [rRun_append, hins.run] at hrun'
+      exact hrun'
+    refine ⟨R', s.1, dels.filterMap (delAct (bl.map (·.vrf)) s.2.1), Rc1, rfl, hins.run, hrunB, ?_, ?_, ?_, ?_⟩
+    · -- shape of the first phase
+      rw [hs]
+      apply insFold_shape dels (PhaseAAct al bl) inss ([], [], []) (by simp)
+      · intro r hr
+        exact Or.inl ⟨r, (hinok r hr).1, rfl⟩
+      · intro d hd r hr hk
+        rw [hdl] at hd
+        obtain ⟨k, hk', rfl⟩ := List.mem_map.mp hd
+        exact Or.inr ⟨al.getD k default, getD_mem_of_lt al k (hDmem k hk').1, r, (hinok r hr).1, rfl, hk⟩
+    · -- shape of the second phase
+      intro a ha
+      obtain ⟨d, hd, hda⟩ := List.mem_filterMap.mp ha
+      rw [hdl] at hd
+      obtain ⟨k, hk', rfl⟩ := List.mem_map.mp hd
+      unfold delAct at hda
+      split at hda
+      · refine ⟨al.getD k default, getD_mem_of_lt al k (hDmem k hk').1, (Option.some.inj hda).symm, ?_⟩
+        rw [← hB]; exact (hDmem k hk').2
+      · cases hda
+    · -- after the first phase every target route is there
+      intro r hr
+      rw [hins.led r.text]
+      by_cases hrA : r.text ∈ A
+      · left
+        refine ⟨?_, ?_⟩
+        · rw [hA] at hrA
+          obtain ⟨a, ha, hat⟩ := List.mem_map.mp hrA
+          rw [← hat]; exact h.aIn a ha
+        · intro hc
+          obtain ⟨d, hd, _, hdt⟩ := (hins.remIff _).mp hc
+          rw [hdl] at hd
+          obtain ⟨k, hk', rfl⟩ := List.mem_map.mp hd
+          apply (hDmem k hk').2
+          show (al.getD k default).text ∈ B
+          rw [hdt, hB]; exact List.mem_map_of_mem hr
+      · right
+        rw [List.mem_reverse, List.mem_map]
+        obtain ⟨j, hj, hjb⟩ := List.getElem_of_mem hr
+        have hgj : bl.getD j default = r := by
+          rw [List.getD_eq_getElem?_getD, List.getElem?_eq_getElem hj, Option.getD_some, hjb]
+        have hjI : j ∈ I := by
+          rw [hI]
+          refine mem_sIns.mpr ⟨j, by rw [hBL]; exact hj, by omega, ?_⟩
+          rw [hB, getD_text j hj, hgj, Bool.eq_false_iff]
+          intro hc
+          exact hrA (by simpa using hc)
+        exact ⟨r, by rw [hil]; exact List.mem_map.mpr ⟨j, hjI, hgj⟩, rfl⟩
     intro t
     rw [hled' t]
     have hremD : t ∈ rem' ↔ DelT al bl t := by
@@ -566,6 +667,14 @@ theorem routes_run (al bl : List Route) (R : List String) (h : RoutesWF al bl R)
         exact ⟨b, by rw [hil]; exact List.mem_map.mpr ⟨j, hjI, hgj⟩, h1⟩
     rw [hremD, haddI]
 
+
+/-- `diffRoutes`: every route command is accepted; the resulting routes as a set. -/
+theorem routes_run (al bl : List Route) (R : List String) (h : RoutesWF al bl R) :
+    ∃ R', rRun R (routePlan al bl).1 = some R' ∧ ∀ t, t ∈ R' ↔ (t ∈ R ∧ ¬ DelT al bl t) ∨ InsT al bl t := by
+  obtain ⟨R', pa, pb, Ra, h1, h2, h3, _, _, _, h7⟩ := routes_run_full al bl R h
+  refine ⟨R', ?_, h7⟩
+  rw [h1, rRun_append, h2]
+  exact h3
 
 /-! ## the two lists the loops of `diffRoutes` run over, flattened -/
 
